@@ -80,6 +80,15 @@ class SArr:
     # mutation -----------------------------------------------------------
     def assign_fn(self, newfn):
         """replace every element: self[idx] = newfn(idx)"""
+        tgt = self
+        while tgt is not None:
+            if getattr(tgt, "frozen", False):
+                from . import values as _V
+                p = _V.PATH[0]
+                if p is not None:
+                    p.oblige("frame.cached_result_mutated", False, {"kind": "safety"})
+                break
+            tgt = tgt.base
         if self.base is not None:
             base, inv = self.base, self.inv
             old = base.snapshot()
